@@ -31,7 +31,7 @@ LEVEL_TEXT = ("Hundreds (quick) to tens of thousands (thorough) of seeded histor
               "Held-on-observed histories.")
 LEVEL_NOTE = ("Trusted base: sim/world.py, sim/node.py, spec/frames.py. A 'live' handler is one whose run() is pending on the SimScheduler and whose "
               "_cancelled flag is unset, read at quiescent points only (nothing runnable without advancing time). Whether a down event should have "
-              "been discounted is not judged. Hosts at distance IGNORED are not generated.")
+              "been discounted is not judged. Hosts are at distance IGNORED only through the liveness-dependent DCAware variant (a remote-datacenter host that is down); no reconnection series and no pool is demanded for them.")
 QUICK_WORKERS = 4
 WORKERS = 14
 
@@ -89,7 +89,8 @@ def run_history(seed):
     from spec import frames as F
     from cassandra.cluster import (ExecutionProfile, EXEC_PROFILE_DEFAULT, GraphExecutionProfile, GraphAnalyticsExecutionProfile,
                                    EXEC_PROFILE_GRAPH_DEFAULT, EXEC_PROFILE_GRAPH_SYSTEM_DEFAULT, EXEC_PROFILE_GRAPH_ANALYTICS_DEFAULT)
-    from cassandra.policies import RoundRobinPolicy, ConstantReconnectionPolicy, HostStateListener, HostDistance, FallthroughRetryPolicy
+    from cassandra.policies import (RoundRobinPolicy, DCAwareRoundRobinPolicy, ConstantReconnectionPolicy, HostStateListener, HostDistance,
+                                    FallthroughRetryPolicy)
     from cassandra.pool import _HostReconnectionHandler
 
     rng = random.Random(seed)
@@ -111,7 +112,11 @@ def run_history(seed):
         ch = PriorityChooser(random.Random(seed * 17 + 1), p_preempt=rng.choice([0.3, 0.6, 1.0]))
     else:
         ch = W.RandomChooser(random.Random(seed * 17 + 1), p_time=0.0, p_preempt=rng.choice([0.0, 0.1, 0.3]))
-    env = SimEnv(ch, addresses=addrs, max_virtual_time=3000.0)
+    # a liveness-dependent policy in ~30 % of the histories: the last node sits in a second datacenter and DCAwareRoundRobinPolicy with a remote
+    # quota of one reports it as REMOTE while the policy believes it is up and as IGNORED while it is down (no reconnector then: such a host
+    # comes back through STATUS_CHANGE UP)
+    dcaware = rng.random() < 0.3
+    env = SimEnv(ch, addresses=addrs, dcs=(['dc1'] * (n_nodes - 1) + ['dc2']) if dcaware else None, max_virtual_time=3000.0)
     w = env.world
     plan = {}
     hold_pool = {}                   # address -> number of pool-init connections whose SUPPORTED is still to be kept back
@@ -119,7 +124,7 @@ def run_history(seed):
     fail_pool = {}                   # address -> number of pool-init connections still to be reset at STARTUP
     notes = []                       # (t, who, what, address)   who = 'listener' | 'policy'
     viol = []
-    info = {'seed': seed, 'family': family, 'nodes': n_nodes, 'sessions': n_sessions, 'proto': proto, 'max_attempts': max_attempts, 'events': []}
+    info = {'seed': seed, 'family': family, 'nodes': n_nodes, 'sessions': n_sessions, 'proto': proto, 'max_attempts': max_attempts, 'events': [], 'policy': 'dcaware' if dcaware else 'roundrobin'}
 
     def behaviour(node, cstate, req):
         a = node.address
@@ -168,24 +173,39 @@ def run_history(seed):
             notes.append((w.now, 'listener', 'remove', host.endpoint.address, id(host)))
             removed_at_log_index[id(host)] = len(sched_log())
 
-    class RecordingPolicy(RoundRobinPolicy):
-        def on_up(self, host):
-            notes.append((w.now, 'policy', 'up', host.endpoint.address, id(host)))
-            return RoundRobinPolicy.on_up(self, host)
+    def recording(base):
+        class RecordingPolicy(base):
+            _nested = 0          # DCAwareRoundRobinPolicy.on_add / on_remove call self.on_up / self.on_down: one notification from the cluster, one note
 
-        def on_down(self, host):
-            notes.append((w.now, 'policy', 'down', host.endpoint.address, id(host)))
-            return RoundRobinPolicy.on_down(self, host)
+            def on_up(self, host):
+                if not self._nested:
+                    notes.append((w.now, 'policy', 'up', host.endpoint.address, id(host)))
+                return base.on_up(self, host)
 
-        def on_add(self, host):
-            notes.append((w.now, 'policy', 'add', host.endpoint.address, id(host)))
-            return RoundRobinPolicy.on_add(self, host)
+            def on_down(self, host):
+                if not self._nested:
+                    notes.append((w.now, 'policy', 'down', host.endpoint.address, id(host)))
+                return base.on_down(self, host)
 
-        def on_remove(self, host):
-            notes.append((w.now, 'policy', 'remove', host.endpoint.address, id(host)))
-            return RoundRobinPolicy.on_remove(self, host)
+            def on_add(self, host):
+                notes.append((w.now, 'policy', 'add', host.endpoint.address, id(host)))
+                self._nested += 1
+                try:
+                    return base.on_add(self, host)
+                finally:
+                    self._nested -= 1
+
+            def on_remove(self, host):
+                notes.append((w.now, 'policy', 'remove', host.endpoint.address, id(host)))
+                self._nested += 1
+                try:
+                    return base.on_remove(self, host)
+                finally:
+                    self._nested -= 1
+        return RecordingPolicy
 
     removed_at_log_index = {}        # id(host) -> length of cluster.scheduler.scheduled when listeners were told on_remove
+    seen_unknown = set()             # ids of host objects last seen with is_up None at a quiescent point (never marked up since)
     stray_seen = {}                  # id(host) -> first time a live handler was seen although the host was marked up
     cluster_box = []
 
@@ -213,7 +233,7 @@ def run_history(seed):
         return None if last is None else bool(last.is_host_addition)
 
     uids = iter(range(1, 100000))
-    counters = {'quiescent_checks': 0, 'down_host_checks': 0, 'handlers_seen': 0, 'reconnector_conns': 0, 'removals_observed': 0, 'reconnection_attempts_held_mid_connect': 0, 'pool_connections_held_mid_connect': 0, 'same_address_added_again_as_new_host_object': 0, 'removals_while_an_attempt_was_mid_connect': 0, 'on_up_with_2plus_sessions': 0,
+    counters = {'quiescent_checks': 0, 'down_host_checks': 0, 'handlers_seen': 0, 'reconnector_conns': 0, 'removals_observed': 0, 'down_hosts_at_distance_ignored': 0, 'ignored_hosts_brought_back_by_status_up': 0, 'final_pools_of_remote_dc_hosts': 0, 'reconnection_attempts_held_mid_connect': 0, 'pool_connections_held_mid_connect': 0, 'same_address_added_again_as_new_host_object': 0, 'removals_while_an_attempt_was_mid_connect': 0, 'on_up_with_2plus_sessions': 0,
                 'final_hosts': 0, 'final_hosts_of_unknown_state': 0, 'final_pools': 0, 'notifications': 0}
 
     # observe Host.get_and_set_reconnection_handler from outside: which handler loses the host's slot to the completion callback of another one
@@ -239,14 +259,19 @@ def run_history(seed):
     _pool.Host.get_and_set_reconnection_handler = watched_gas
 
     with env:
-        prof = ExecutionProfile(load_balancing_policy=RecordingPolicy(), request_timeout=5.0, retry_policy=FallthroughRetryPolicy())
+        def plain_policy():
+            # the three graph profiles get their own (not recording) instances of the same kind of policy: the cluster-wide distance of a
+            # host is the closest one over all profiles
+            return DCAwareRoundRobinPolicy(local_dc='dc1', used_hosts_per_remote_dc=1) if dcaware else RoundRobinPolicy()
+        lbp = recording(DCAwareRoundRobinPolicy)(local_dc='dc1', used_hosts_per_remote_dc=1) if dcaware else recording(RoundRobinPolicy)()
+        prof = ExecutionProfile(load_balancing_policy=lbp, request_timeout=5.0, retry_policy=FallthroughRetryPolicy())
         cluster = env.cluster(contact_points=[addrs[0]], executor_threads=max(3, n_sessions + 2), protocol_version=proto,
                               # the recording policy instance sits in exactly one profile (by default the cluster wires the default
                               # profile's policy object into the three graph profiles as well and notifies it once per profile)
                               execution_profiles={EXEC_PROFILE_DEFAULT: prof,
-                                                  EXEC_PROFILE_GRAPH_DEFAULT: GraphExecutionProfile(load_balancing_policy=RoundRobinPolicy()),
-                                                  EXEC_PROFILE_GRAPH_SYSTEM_DEFAULT: GraphExecutionProfile(load_balancing_policy=RoundRobinPolicy()),
-                                                  EXEC_PROFILE_GRAPH_ANALYTICS_DEFAULT: GraphAnalyticsExecutionProfile(load_balancing_policy=RoundRobinPolicy())},
+                                                  EXEC_PROFILE_GRAPH_DEFAULT: GraphExecutionProfile(load_balancing_policy=plain_policy()),
+                                                  EXEC_PROFILE_GRAPH_SYSTEM_DEFAULT: GraphExecutionProfile(load_balancing_policy=plain_policy()),
+                                                  EXEC_PROFILE_GRAPH_ANALYTICS_DEFAULT: GraphAnalyticsExecutionProfile(load_balancing_policy=plain_policy())},
                               reconnection_policy=ConstantReconnectionPolicy(1.0, max_attempts=max_attempts), connect_timeout=3.0,
                               status_event_refresh_window=0, topology_event_refresh_window=0)
         if proto < 3:
@@ -299,6 +324,9 @@ def run_history(seed):
             return any((not hh.done) and hh.req['op'] == 'OPTIONS' and hh.node.address == a_ and not hh.conn.is_closed and hh.conn.sim_creator == 'reconnector'
                        for hh in env.net.held)
 
+        def ignored(h_):
+            return cluster.profile_manager.distance(h_) == HostDistance.IGNORED
+
         def check(label):
             """Invariants at a quiescent point."""
             with w.inspect():
@@ -308,12 +336,18 @@ def run_history(seed):
                 mem_ids = set(id(h) for h in mem)
                 for h in mem:
                     a = h.endpoint.address
+                    if h.is_up is None:
+                        seen_unknown.add(id(h))
+                    elif h.is_up is True:
+                        seen_unknown.discard(id(h))
                     n_live = len(live.get(id(h), ()))
                     if n_live > 1:
                         viol.append(('two-live-reconnectors-for-one-host', "%d live reconnection handlers for host %s at t=%.2f (%s)" % (n_live, a, w.now, label),
                                      {'a_live_handler_lost_its_slot_to_another_handlers_completion': any(id(x) in orphaned for x in live[id(h)]),
                                       'slot_points_to_a_live_handler': any(x is h._reconnection_handler for x in live[id(h)])}))
-                    if h.is_up is False:
+                    if h.is_up is False and ignored(h):
+                        counters['down_hosts_at_distance_ignored'] += 1         # no reconnection series is owed to a host the policy ignores
+                    elif h.is_up is False:
                         counters['down_host_checks'] += 1
                         busy = h._currently_handling_node_up
                         if n_live == 0 and not busy and max_attempts is None:
@@ -321,8 +355,9 @@ def run_history(seed):
                                 a, w.now, label), {'host_reconnection_handler_set': h._reconnection_handler is not None,
                                                    'handler_cancelled': getattr(h._reconnection_handler, '_cancelled', None), 'sessions': n_sessions,
                                                    'a_session_has_an_open_pool': any(s_._pools.get(h) is not None and not s_._pools.get(h).is_shutdown for s_ in sessions),
-                                                   'last_handler_was_for_host_addition': last_handler_addition(id(h)),
-                                                   'listeners_ever_told_add_or_up': any(n[1] == 'listener' and n[4] == id(h) and n[2] in ('add', 'up') for n in notes)}))
+                                                   'last_handler_was_for_host_addition': last_handler_addition(id(h)), 'state_was_unknown_before_and_never_up_since': id(h) in seen_unknown,
+                                                   'listeners_ever_told_add_or_up': any(n[1] == 'listener' and n[4] == id(h) and n[2] in ('add', 'up') for n in notes),
+                                                   'state_was_unknown_before_and_never_up_since': id(h) in seen_unknown}))
                     elif h.is_up and n_live and label != 'final':
                         stray_seen.setdefault(id(h), w.now)
                     elif h.is_up and n_live and label == 'final':
@@ -504,6 +539,13 @@ def run_history(seed):
         w.settle(advance=False)
         check('before the final phase')
         w.settle(until=w.now + 12.0)
+        with w.inspect():
+            back = [h_ for h_ in members() if h_.is_up is False and ignored(h_)]
+        for h_ in back:
+            # a down host the policy ignores has no reconnector: the cluster learns that it is back from the server's STATUS_CHANGE UP
+            counters['ignored_hosts_brought_back_by_status_up'] += 1
+            push(F.body_event_status('UP', ip_bytes(h_.endpoint.address), 9042))
+        w.settle(until=w.now + 3.0)
         env.net.hidden_peers.clear()
         cluster.control_connection.refresh_node_list_and_token_map()
         w.settle(until=w.now + 25.0)
@@ -531,10 +573,11 @@ def run_history(seed):
                 exhausted = max_attempts is not None
                 if h.is_up is None:
                     counters['final_hosts_of_unknown_state'] += 1       # neither marked up nor down (e.g. a discounted failure while the host was being added): not judged
-                if h.is_up is False and not exhausted:
+                if h.is_up is False and not exhausted and not ignored(h):
                     viol.append(('host-not-up-at-final-quiescence', "host %s has is_up=%r although its node has been healthy for 37 virtual seconds" % (a, h.is_up),
                                  {'live_handlers': len(live.get(id(h), ())), 'handling_node_up_flag': h._currently_handling_node_up, 'sessions': n_sessions,
                                   'never_a_handler': last_handler_addition(id(h)) is None, 'last_handler_was_for_host_addition': last_handler_addition(id(h)),
+                                  'state_was_unknown_before_and_never_up_since': id(h) in seen_unknown,
                                   'listeners_ever_told_add_or_up': any(n[1] == 'listener' and n[4] == id(h) and n[2] in ('add', 'up') for n in notes),
                                   'reconnection_handler_set': h._reconnection_handler is not None}))
                 # what the observers were last told about this host object
@@ -549,16 +592,18 @@ def run_history(seed):
                                                                 'previous': last[-2][2] if len(last) > 1 else None,
                                                                 'previous_at_same_instant': len(last) > 1 and abs(last[-2][0] - last[-1][0]) < 1e-3,
                                                                 'pools_needed': sum(1 for s in sessions if not s.is_shutdown)}))
-                    if h.is_up is False and told_up and not exhausted:
+                    if h.is_up is False and told_up and not exhausted and not ignored(h):
                         viol.append(('observer-not-told-down', "%s was last told %r about host %s but the host is marked down at the final quiescence" % (who, last[-1][2], a),
                                      {'who': who, 'handling_node_up_flag': h._currently_handling_node_up, 'live_handlers': len(live.get(id(h), ())), 'sessions': n_sessions,
                                       'last': last[-1][2], 'never_a_handler': last_handler_addition(id(h)) is None,
-                                      'last_handler_was_for_host_addition': last_handler_addition(id(h)), 'reconnection_handler_set': h._reconnection_handler is not None,
+                                      'last_handler_was_for_host_addition': last_handler_addition(id(h)), 'state_was_unknown_before_and_never_up_since': id(h) in seen_unknown, 'reconnection_handler_set': h._reconnection_handler is not None,
                                       'listeners_ever_told_add_or_up': any(n[1] == 'listener' and n[4] == id(h) and n[2] in ('add', 'up') for n in notes)}))
-                if h.is_up:
+                if h.is_up and not ignored(h):
                     for si, s in enumerate(sessions):
                         pool = s._pools.get(h)
                         counters['final_pools'] += 1
+                        if dcaware and h.datacenter == 'dc2':
+                            counters['final_pools_of_remote_dc_hosts'] += 1
                         if pool is None or pool.is_shutdown:
                             others_open = any(s2 is not s and s2._pools.get(h) is not None and not s2._pools.get(h).is_shutdown for s2 in sessions)
                             viol.append(('up-host-without-pool', "host %s is up but session %d has %s for it at the final quiescence" % (
@@ -641,15 +686,16 @@ def classify(v, info):
     if mech == 'down-host-without-reconnector' and d.get('sessions', 0) >= 2 and d.get('a_session_has_an_open_pool') and d.get('last_handler_was_for_host_addition') \
             and not d.get('host_reconnection_handler_set'):
         return K_ADD_PARTIAL
-    if mech == 'down-host-without-reconnector' and d.get('last_handler_was_for_host_addition') is None and not d.get('listeners_ever_told_add_or_up') \
-            and not d.get('host_reconnection_handler_set'):
+    if mech == 'down-host-without-reconnector' and d.get('last_handler_was_for_host_addition') is None \
+            and (not d.get('listeners_ever_told_add_or_up') or d.get('state_was_unknown_before_and_never_up_since')) and not d.get('host_reconnection_handler_set'):
         return K_UNKNOWN_DOWN
     if mech == 'observer-not-told-up' and d.get('last') == 'down' and d.get('previous') == 'up' and d.get('previous_at_same_instant') and d.get('pools_needed', 0) >= 1:
         return K_STRAY           # same interleaving, the on_up finished completely before on_down told its observers
     if mech == 'two-live-reconnectors-for-one-host' and d.get('a_live_handler_lost_its_slot_to_another_handlers_completion'):
         return K_ORPHAN
-    if mech in ('host-not-up-at-final-quiescence', 'observer-not-told-down') and d.get('never_a_handler') and not d.get('listeners_ever_told_add_or_up') \
-            and not d.get('reconnection_handler_set') and d.get('who', 'policy') == 'policy' and d.get('last', 'add') == 'add':
+    if mech in ('host-not-up-at-final-quiescence', 'observer-not-told-down') and d.get('never_a_handler') and not d.get('reconnection_handler_set') \
+            and d.get('last', 'add') == 'add' and ((not d.get('listeners_ever_told_add_or_up') and d.get('who', 'policy') == 'policy')
+                                                   or d.get('state_was_unknown_before_and_never_up_since')):
         return K_UNKNOWN_DOWN
     if mech in ('host-not-up-at-final-quiescence', 'observer-not-told-down') and d.get('last_handler_was_for_host_addition') and d.get('sessions', 0) >= 2 \
             and not d.get('listeners_ever_told_add_or_up') and not d.get('reconnection_handler_set') and d.get('live_handlers') == 0 \
@@ -718,4 +764,4 @@ def run(ctx):
             ctx.sample({"seed": seed, "events": info['events'], "notifications": info['notes'][-16:], "counters": counters})
     ctx.floor_distinct = 40 if ctx.quick else 1500
     ctx.floor_counters = {"histories": 40, "quiescent_checks": 200, "down_host_checks": 30, "handlers_seen": 30, "reconnector_conns": 30, "final_pools": 30,
-                          "notifications": 200, "removals_while_an_attempt_was_mid_connect": 5, "pool_connections_held_mid_connect": 5, "same_address_added_again_as_new_host_object": 10, "on_up_with_2plus_sessions": 50}
+                          "notifications": 200, "removals_while_an_attempt_was_mid_connect": 5, "pool_connections_held_mid_connect": 5, "same_address_added_again_as_new_host_object": 10, "final_pools_of_remote_dc_hosts": 10, "on_up_with_2plus_sessions": 50}
